@@ -45,7 +45,7 @@ CLAIMED = {
              text="Mode logic is decided exhaustively for small messages: the real mode classes run over a Python object implementing the specification's toy cipher and every ciphertext/plaintext is compared by TLC (2- and 4-byte blocks, all admissible paddings, IV classes, counter halves at 0/max-1/max).  With the real ciphers (AES-128/192/256, DES, TDEA, Serpent, Threefish-256/512/1024) keys/IVs are random and lengths cover every residue class boundary over 0..3 blocks; CTS is held to length, IV prefix and round trip.",
              ref="DESIGN.md section 7 C05"),
 
- 'C11': dict(tech="TLC: counter-carrying hash object and BLAKE padding model-checked with symbolic compression; TLC trace validation recomputing every BLAKE-224..512 and BLAKE2b/2s digest from TLA+ transcriptions of the BLAKE submission and RFC 7693 (validated against official vectors and hashlib incl. all parameters)",
+ 'C11': dict(tech="TLC: counter-carrying hash object and BLAKE padding model-checked with symbolic compression; TLC trace validation recomputing every BLAKE-224..512 and BLAKE2b/2s digest from TLA+ transcriptions of the BLAKE submission and RFC 7693 (validated against official vectors and hashlib incl. all parameters); page-sized one-shot messages (4 KiB..8 KiB, thorough 16 KiB) for BLAKE and BLAKE2",
              text="BLAKE: length classes around 0, B-2w, B, 2B (quick) / every bit length 0..2B+8 (thorough), all L mod 8, salt classes, over-long bit lengths, counters preset across the word boundary.  BLAKE2: length grid 0..4 blocks, digest lengths (boundary / every), salt, personalization, fanout, depth, leaf length, node offset, node depth, inner length at range ends, out-of-range digest lengths rejected; singleton and fresh objects.  Content is seeded.",
              ref="DESIGN.md section 7 C11"),
 
